@@ -1,11 +1,11 @@
 import KcpVerif.Model.Kcp
-import KcpVerif.Lemmas.KcpFlush
-import KcpVerif.Lemmas.KcpOps
+import KcpVerif.Lemmas.KcpLiveFlush
+import KcpVerif.Lemmas.KcpLiveOps
 /-!
 C18 — no retransmission on a clean path; RTO stays within its bounds.
 -/
 namespace KcpVerif.Props
-open KcpVerif KcpVerif.Gen KcpVerif.Kcp
+open KcpVerif KcpVerif.Gen KcpVerif.Kcp KcpVerif.Live
 
 theorem C18_clamp_bounds (minrto rto : U32) (hmin : minrto ≤ u32 IKCP_RTO_MAX) :
     minrto ≤ clampRto minrto rto ∧ clampRto minrto rto ≤ u32 IKCP_RTO_MAX := by
@@ -172,7 +172,7 @@ example : (fastLoop 7 100 2 [{ sn := 5, ts := 90 }, { sn := 7, ts := 95 }]).buf 
 
 /-! ### `reachable_rto_bounds`
 
-`Op`, `step`, `run`, `RtoInv`, `rtoOk`, `runOk` are in Lemmas/KcpOps.lean. -/
+`Op`, `step`, `run`, `RtoInv`, `rtoOk`, `runOk` are in Lemmas/KcpLiveOps.lean. -/
 
 /-- every operation with arbitrary arguments keeps `rx_minrto ≤ rx_rto ≤ IKCP_RTO_MAX`; the only
 hypothesis concerns `NoDelay`: it must not raise `rx_minrto` above the current `rx_rto`
